@@ -46,6 +46,12 @@ Theorem varint_roundtrip :
   forall n rest, n < two64 -> get_varint (put_varint n ++ rest) = Some (n, rest).
 Proof. exact get_put_varint. Qed.
 
+(* protohelpers.SizeOfVarint's closed formula (bits.Len64(x|1)+6)/7 is the number of bytes
+   EncodeVarint writes, for every uint64. *)
+Theorem size_of_varint_formula :
+  forall v, v < two64 -> sov v = size_varint v /\ len (put_varint v) = size_varint v.
+Proof. exact (fun v H => conj (sov_is_size_varint v H) (put_varint_len v)). Qed.
+
 (* ---- arbitrary bytes --------------------------------------------------------------------- *)
 
 (* The decoders are total functions bytes -> option value ("a value or an error").  They
@@ -169,6 +175,7 @@ Print Assumptions packet_roundtrip.
 Print Assumptions size_correct.
 Print Assumptions canonical_any_order.
 Print Assumptions varint_roundtrip.
+Print Assumptions size_of_varint_formula.
 Print Assumptions decode_total_no_overread.
 Print Assumptions decoded_size_le_input.
 Print Assumptions decoded_size_le_input_refuted.
